@@ -112,9 +112,11 @@ impl ViNormal {
 		 * Note that we do use a label here for the block and 'return' values from this scope
 		 * using "break 'verb_parse <value>"
 		 */
+		let mut verb_count_given = None;
 		let verb = 'verb_parse: {
 			let mut chars_clone = chars.clone();
-			let count = self.parse_count(&mut chars_clone).unwrap_or(1);
+			verb_count_given = self.parse_count(&mut chars_clone);
+			let count = verb_count_given.unwrap_or(1);
 
 			let Some(ch) = chars_clone.next() else {
 				break 'verb_parse None
@@ -504,7 +506,9 @@ impl ViNormal {
 					match ch {
 						'g' => {
 							chars_clone.next();
-							break 'motion_parse Some(match count_given {
+							// A count typed before the operator is a line number as well
+							let line = count_given.or(verb.as_ref().and(verb_count_given).map(|_| 1));
+							break 'motion_parse Some(match line {
 								Some(line) => MotionCmd(line, Motion::GotoLine),
 								None => MotionCmd(1, Motion::BeginningOfBuffer),
 							})
@@ -592,8 +596,8 @@ impl ViNormal {
 				'n' => break 'motion_parse Some(MotionCmd(count, Motion::NextMatch)),
 				'N' => break 'motion_parse Some(MotionCmd(count, Motion::PrevMatch)),
 				'%' => break 'motion_parse Some(MotionCmd(count, Motion::ToDelimMatch)),
-				'G' => break 'motion_parse Some(match count_given {
-					// With a count, G goes to that line
+				'G' => break 'motion_parse Some(match count_given.or(verb.as_ref().and(verb_count_given).map(|_| 1)) {
+					// With a count, typed before or after the operator, G goes to that line
 					Some(line) => MotionCmd(line, Motion::GotoLine),
 					None => MotionCmd(1, Motion::EndOfBuffer),
 				}),
@@ -712,9 +716,11 @@ impl ViNormal {
 		 * Note that we do use a label here for the block and 'return' values from this scope
 		 * using "break 'verb_parse <value>"
 		 */
+		let mut verb_count_given = None;
 		let verb = 'verb_parse: {
 			let mut chars_clone = chars.clone();
-			let count = self.parse_count(&mut chars_clone).unwrap_or(1);
+			verb_count_given = self.parse_count(&mut chars_clone);
+			let count = verb_count_given.unwrap_or(1);
 
 			let Some(ch) = chars_clone.next() else {
 				break 'verb_parse None
@@ -1064,7 +1070,9 @@ impl ViNormal {
 					match ch {
 						'g' => {
 							chars_clone.next();
-							break 'motion_parse Some(match count_given {
+							// A count typed before the operator is a line number as well
+							let line = count_given.or(verb.as_ref().and(verb_count_given).map(|_| 1));
+							break 'motion_parse Some(match line {
 								Some(line) => MotionCmd(line, Motion::GotoLine),
 								None => MotionCmd(1, Motion::BeginningOfBuffer),
 							})
@@ -1150,8 +1158,8 @@ impl ViNormal {
 					break 'motion_parse Some(MotionCmd(count, Motion::CharSearch(Direction::Backward, Dest::Before, *ch)))
 				}
 				'%' => break 'motion_parse Some(MotionCmd(count, Motion::ToDelimMatch)),
-				'G' => break 'motion_parse Some(match count_given {
-					// With a count, G goes to that line
+				'G' => break 'motion_parse Some(match count_given.or(verb.as_ref().and(verb_count_given).map(|_| 1)) {
+					// With a count, typed before or after the operator, G goes to that line
 					Some(line) => MotionCmd(line, Motion::GotoLine),
 					None => MotionCmd(1, Motion::EndOfBuffer),
 				}),
